@@ -48,18 +48,18 @@ impl<'a> CharCounter<'a>
 		let mut line = 0;
 		let mut column = 0;
 		
-		let mut i = 0;
-		while i < index && i < self.chars.len()
+		for (byte_index, c) in self.src.char_indices()
 		{
-			if self.chars[i] == '\n'
+			if byte_index >= index
+				{ break; }
+
+			if c == '\n'
 			{
 				line += 1;
 				column = 0;
 			}
 			else
 				{ column += 1; }
-			
-			i += 1;
 		}
 		
 		(line, column)
@@ -73,27 +73,28 @@ impl<'a> CharCounter<'a>
 	{
 		let mut line_count = 0;
 		let mut line_begin = 0;
+		let mut line_end = self.src.len();
 		
-		while line_count < line && line_begin < self.chars.len()
+		for (byte_index, c) in self.src.char_indices()
 		{
-			line_begin += 1;
-			
-			if self.chars[line_begin - 1] == '\n'
-				{ line_count += 1; }
+			if c != '\n'
+				{ continue; }
+
+			if line_count < line
+			{
+				line_count += 1;
+				line_begin = byte_index + 1;
+			}
+			else
+			{
+				line_end = byte_index + 1;
+				break;
+			}
 		}
+
+		if line_count < line
+			{ line_begin = self.src.len(); }
 		
-		let mut line_end = line_begin;
-		while line_end < self.chars.len()
-		{
-			line_end += 1;
-			
-			if self.chars[line_end - 1] == '\n'
-				{ break; }
-		}
-		
-		(
-			line_begin.try_into().unwrap(),
-			line_end.try_into().unwrap()
-		)
+		(line_begin, line_end)
 	}
 }
